@@ -40,6 +40,8 @@ func rulesC08(c *Ctx) {
 	// a duration literal node is built anew for every occurrence: a node kept by
 	// the parser and handed out twice is negated in place by the unary minus
 	parseFreshRule(c, "C08.parsefresh")
+	strconvRule(c, "C08.strconv")
+	charWidthRule(c, "C08.charwidth")
 }
 
 // runeIndexC08: positions in the rune slice are moved by rune counts.
